@@ -1,3 +1,6 @@
 import DDProps.Tables
 import DDProps.C02
 import DDProps.C01
+import DDProps.C03
+import DDProps.C04
+import DDProps.C11
